@@ -56,6 +56,9 @@ def binop(E, op, a, b, st, sink):
                 for o in E.call_function(FuncV(f), [v, w], {}, st):
                     if o[0] == 'raise':
                         sink.append(o)
+                    elif _is_not_implemented(o[2]):
+                        for r in _after_not_implemented(E, op, v, w, refl, o[1], sink):
+                            yield r
                     else:
                         yield o[1], o[2]
                 return
@@ -168,6 +171,37 @@ def binop(E, op, a, b, st, sink):
     sink.append(('raise', st, exc(TypeError, 'unsupported operand types: %s and %s' % (_type_name(a), _type_name(b)))))
 
 
+def _is_not_implemented(v):
+    from . import models
+    return v is models.NotImplementedV
+
+
+def _after_not_implemented(E, op, v, w, refl, st, sink):
+    """the binary dunder of `v` returned NotImplemented (operands v, w; refl: it was the reflected method of the right operand).
+    CPython: after a forward method, try the reflected method of the right operand when the operand types differ; when
+    nothing is left (or that also returns NotImplemented) the operator raises TypeError."""
+    from .interp import FuncV
+    if not refl and isinstance(w, Ref) and st.heap[w.oid].kind == 'obj' and st.heap[w.oid].cls is not None:
+        cv, cw = st.heap[v.oid].cls, st.heap[w.oid].cls
+        if cw is not cv:
+            if cw.is_subclass_of(cv):
+                raise Unsupported('binary operator: right operand of a subclass of the left operand (reflected method has priority)')
+            f = cw.find_method('__r%s__' % _DUNDER[type(op)])
+            if f is not None:
+                for o in E.call_function(FuncV(f), [w, v], {}, st):
+                    if o[0] == 'raise':
+                        sink.append(o)
+                    elif _is_not_implemented(o[2]):
+                        sink.append(('raise', o[1], exc(TypeError, 'unsupported operand type(s)')))
+                    else:
+                        yield o[1], o[2]
+                return
+    elif not refl and not (is_intlike(w) or w is None):
+        # sequences repeat through __index__ of the left operand, containers have their own reflected methods: not modelled
+        raise Unsupported('NotImplemented from a binary dunder with a right operand %r' % (w,))
+    sink.append(('raise', st, exc(TypeError, 'unsupported operand type(s)')))
+
+
 def replicate(E, s, n, st):
     if isinstance(n, int) and not isinstance(n, bool) or isinstance(n, bool):
         n = int(n)
@@ -193,6 +227,15 @@ def _floordiv(x, y):
 
 def pow2(E, st, n):
     """2**n for symbolic n >= 0 (uninterpreted with ground facts)"""
+    if E.options.get('pow2_consts') and not z3.is_int_value(z3.simplify(n)):
+        # opt-in: when the path condition fixes the exponent to one small constant, 2**n is that constant power
+        s = z3.Solver()
+        s.set('timeout', 400)
+        s.add(*st.pc)
+        if s.check() == z3.sat:
+            v = s.model().eval(n, model_completion=True)
+            if z3.is_int_value(v) and 0 <= v.as_long() <= 4096 and E.implied(st, n == v):
+                return z3.IntVal(2 ** v.as_long())
     t = POW2(n)
     st.fact(t >= 1)
     st.fact(z3.Implies(n == 0, t == 1))
@@ -296,7 +339,12 @@ def int_binop(E, op, a, b, st, sink):
             if neg is not None:
                 sink.append(('raise', neg, exc(ValueError, 'negative shift count')))
             if ok is not None:
-                yield ok, mk_int(x * pow2(E, ok, y))
+                small = _small_shift_cases(E, ok, y)
+                if small is not None:
+                    for s1, k in small:
+                        yield s1, mk_int(x * (1 << k))
+                else:
+                    yield ok, mk_int(x * pow2(E, ok, y))
     elif isinstance(op, ast.RShift):
         if isinstance(b, int):
             if b < 0:
@@ -308,7 +356,12 @@ def int_binop(E, op, a, b, st, sink):
             if neg is not None:
                 sink.append(('raise', neg, exc(ValueError, 'negative shift count')))
             if ok is not None:
-                yield ok, mk_int(x / pow2(E, ok, y))
+                small = _small_shift_cases(E, ok, y)
+                if small is not None:
+                    for s1, k in small:
+                        yield s1, mk_int(x / (1 << k))
+                else:
+                    yield ok, mk_int(x / pow2(E, ok, y))
     elif isinstance(op, (ast.BitAnd, ast.BitOr, ast.BitXor)):
         if isinstance(a, int) and not isinstance(b, int):
             a, b, x, y = b, a, y, x
@@ -345,12 +398,34 @@ def int_binop(E, op, a, b, st, sink):
         if W is None:
             raise Unsupported('bitwise operator on two symbolic integers (no bv_width in contract)')
         lim = z3.IntVal(1 << W)
-        E.oblige(st, z3.And(x >= 0, x < lim, y >= 0, y < lim), 'bv_range', 'operands of %s fit %d bits' % (type(op).__name__, W))
+        in_range = z3.And(x >= 0, x < lim, y >= 0, y < lim)
         bx, by = z3.Int2BV(x, W), z3.Int2BV(y, W)
         r = {ast.BitAnd: bx & by, ast.BitOr: bx | by, ast.BitXor: bx ^ by}[type(op)]
-        yield st, mk_int(z3.BV2Int(r))
+        if st.frames and st.frame.spec_mode:
+            # in a spec expression the operator is total: exact on W-bit operands, an uninterpreted value otherwise
+            uf = z3.Function('bitop_%s' % type(op).__name__, INT, INT, INT)
+            yield st, mk_int(z3.If(in_range, z3.BV2Int(r), uf(x, y)))
+        else:
+            E.oblige(st, in_range, 'bv_range', 'operands of %s fit %d bits' % (type(op).__name__, W))
+            yield st, mk_int(z3.BV2Int(r))
     else:
         raise Unsupported('int op ' + type(op).__name__)
+
+
+def _small_shift_cases(E, st, y):
+    """opt-in (contract option enum_shift=N): when the path condition confines a symbolic shift count to 0..N, split into
+    one path per feasible value (an exact case analysis; each path then shifts by a constant)"""
+    n = E.options.get('enum_shift')
+    if not n or not E.implied(st, z3.And(y >= 0, y <= n)):
+        return None
+    ks = [k for k in range(n + 1) if E.feasible(st, y == k)]
+    out = []
+    for i, k in enumerate(ks):
+        s1 = st if i == len(ks) - 1 else st.fork()
+        s1.pc.append(y == k)
+        s1.trace.append(('shift', k))
+        out.append((s1, k))
+    return out
 
 
 BITOPS = {ast.BitAnd: z3.Function('bitand', INT, INT, INT), ast.BitOr: z3.Function('bitor', INT, INT, INT),
@@ -376,6 +451,10 @@ def bitop_value(E, st, opt, x, y):
         st.fact(z3.Implies(nonneg, z3.And(t >= 0, t <= x + y)))
         st.fact(z3.Implies(y == 0, t == x))
         st.fact(z3.Implies(x == y, t == 0))
+        st.fact(z3.Implies(t == 0, x == y))                # a ^ b == 0 only for a == b
+    for k in (8, 16, 32, 64, 128, 256):
+        # operands below 2**k give a result below 2**k
+        st.fact(z3.Implies(z3.And(nonneg, x < (1 << k), y < (1 << k)), t < (1 << k)))
     return t
 
 
